@@ -1,7 +1,6 @@
 package main
 
 import (
-	"fmt"
 	"go/types"
 	"strings"
 
@@ -257,15 +256,7 @@ func (in *Interp) sprintf(args []Value) Value {
 							parts = append(parts, litStr(lit))
 							lit = ""
 						}
-						t := x
-						if t.w < 64 {
-							if isSigned(iv.typ) {
-								t = SExt(t, 64)
-							} else {
-								t = ZExt(t, 64)
-							}
-						}
-						parts = append(parts, in.itoa(t))
+						parts = append(parts, in.itoa(BV2Int(x, isSigned(iv.typ))))
 					} else {
 						exact = false
 					}
@@ -291,30 +282,33 @@ func (in *Interp) sprintf(args []Value) Value {
 }
 
 func (in *Interp) strConcat(sa, sb *StrV) *StrV {
-	n := zeroArr(8).Copy(BV(64, 0), sa.node, sa.off, sa.len).Copy(sa.len, sb.node, sb.off, sb.len)
-	return &StrV{node: n, off: BV(64, 0), len: Bin("bvadd", sa.len, sb.len)}
+	n := zeroArr(8).Copy(IX(0), sa.node, sa.off, sa.len).Copy(sa.len, sb.node, sb.off, sb.len)
+	return &StrV{node: n, off: IX(0), len: Bin("bvadd", sa.len, sb.len)}
 }
 
-// itoa: decimal rendering of a 64-bit signed term. Concrete values are exact;
-// symbolic values are case-split on the number of digits (non-negative, < 10^7) .
+// itoa: decimal rendering of an int term. Concrete values are exact; symbolic
+// values are case-split on the number of digits (non-negative, < 10^7).
 func (in *Interp) itoa(t *Term) *StrV {
-	if t.IsConst() {
-		return litStr(fmt.Sprint(t.Int()))
+	if t.w != SortInt {
+		t = BV2Int(t, true)
 	}
-	if !in.branch(Cmp("bvsle", BV(64, 0), t)) {
+	if t.IsConst() {
+		return litStr(t.c.String())
+	}
+	if !in.branch(ICmp("<=", IntC(0), t)) {
 		in.unsupported("itoa of negative symbolic value")
 	}
 	pow := int64(10)
 	for nd := 1; nd <= 7; nd++ {
-		if in.branch(Cmp("bvslt", t, BV(64, pow))) {
+		if in.branch(ICmp("<", t, IntC(pow))) {
 			node := zeroArr(8)
 			p := pow / 10
 			for i := 0; i < nd; i++ {
-				d := Bin("bvurem", Bin("bvudiv", t, BV(64, p)), BV(64, 10))
-				node = node.Store(BV(64, int64(i)), Bin("bvadd", Extract(d, 7, 0), BV(8, '0')))
+				d := IArith("mod", IArith("div", t, IntC(p)), IntC(10))
+				node = node.Store(IX(int64(i)), Int2BV(IArith("+", d, IntC('0')), 8))
 				p /= 10
 			}
-			s := &StrV{node: node, off: BV(64, 0), len: BV(64, int64(nd))}
+			s := &StrV{node: node, off: IX(0), len: IX(int64(nd))}
 			in.itoaTags[s.node] = t
 			return s
 		}
@@ -328,7 +322,7 @@ func (in *Interp) itoa(t *Term) *StrV {
 // parses concrete-length strings digit by digit.
 func (in *Interp) atoi(s *StrV) Value {
 	errV := func() Value {
-		return TupleV{BV(64, 0), in.errIface(&ErrObj{format: "strconv.Atoi: invalid syntax"})}
+		return TupleV{IX(0), in.errIface(&ErrObj{format: "strconv.Atoi: invalid syntax"})}
 	}
 	if t, ok := in.itoaTags[s.node]; ok && s.off.IsConst() && s.off.Int() == 0 {
 		return TupleV{t, (*IfaceV)(nil)}
@@ -340,10 +334,10 @@ func (in *Interp) atoi(s *StrV) Value {
 	if n == 0 || n > 18 {
 		return errV()
 	}
-	v := BV(64, 0)
+	v := IX(0)
 	neg := false
 	for i := 0; i < n; i++ {
-		b := s.node.Read(Bin("bvadd", s.off, BV(64, int64(i))))
+		b := s.node.Read(Bin("bvadd", s.off, IX(int64(i))))
 		if i == 0 && n > 1 {
 			if b.IsConst() && (b.Uint() == '-' || b.Uint() == '+') {
 				neg = b.Uint() == '-'
@@ -354,10 +348,10 @@ func (in *Interp) atoi(s *StrV) Value {
 		if !in.branch(isDigit) {
 			return errV()
 		}
-		v = Bin("bvadd", Bin("bvmul", v, BV(64, 10)), ZExt(Bin("bvsub", b, BV(8, '0')), 64))
+		v = IArith("+", IArith("*", v, IntC(10)), BV2Int(Bin("bvsub", b, BV(8, '0')), false))
 	}
 	if neg {
-		v = Bin("bvsub", BV(64, 0), v)
+		v = IArith("-", IntC(0), v)
 	}
 	return TupleV{v, (*IfaceV)(nil)}
 }
